@@ -173,6 +173,28 @@ Definition site_matches (s : site) (x : exception_entry) : bool :=
 Definition classified_ok (exceptions : list exception_entry) (s : site) : bool :=
   shape_safe (s_effects s) || existsb (site_matches s) exceptions.
 
+(* ONE SITE PER ENTRY.  Entries are keyed structurally, so an entry could cover a second loop with the same key that
+   nobody reviewed.  A site that needs an exception is claimed by the FIRST entry of the table that matches it; no entry
+   may claim more than one site.  A second loop over the same map type with the same effects in the same package
+   re-opens the obligation. *)
+Fixpoint first_idx (s : site) (xs : list exception_entry) (i : nat) : option nat :=
+  match xs with
+  | [] => None
+  | e :: r => if site_matches s e then Some i else first_idx s r (S i)
+  end.
+
+Definition claims (xs : list exception_entry) (sites : list site) (i : nat) : nat :=
+  List.length (filter (fun s => negb (shape_safe (s_effects s)) &&
+                               match first_idx s xs 0 with Some j => Nat.eqb i j | None => false end) sites).
+
+Definition one_site_per_entry (xs : list exception_entry) (sites : list site) : bool :=
+  forallb (fun i => Nat.leb (claims xs sites i) 1) (seq 0 (List.length xs)).
+
+(* the same for the reviewed ambient sources: one reviewed use per (package, function, callee) *)
+Definition one_call_per_allowed (allowed : list (string * string * string)) (calls : list ambient_call) : bool :=
+  forallb (fun x => Nat.leb (List.length (filter (fun a => String.eqb (am_pkg a) (fst (fst x)) && String.eqb (am_func a) (snd (fst x))
+                                                           && String.eqb (am_callee a) (snd x)) calls)) 1) allowed.
+
 (* the sites that fail: printed by the check when the obligation re-opens *)
 Definition unclassified (exceptions : list exception_entry) (sites : list site) : list site :=
   filter (fun s => negb (classified_ok exceptions s)) sites.
@@ -426,8 +448,12 @@ Definition xobject_properties {V : Type} (props : list (str * V)) : list str :=
 Definition xobject_entries {V : Type} (props : list (str * V)) : list (str * option V) :=
   map (fun k => (k, lookup str_eqb k props)) (xobject_properties props).
 
-(* XObject.MarshalJSON: `marshaled[p] = json(v)` for the properties that pass the filter, then jsonx.Marshal of
-   the Go map (encoding/json writes map entries in key order) *)
+(* XObject.MarshalJSON.  The code today (object.go writeJSON, after e7a2eae): collect the names of the properties that pass
+   the filter in map order, sort.Strings, then write `name:json(v)` per name, leaving out a property whose value cannot be
+   marshaled.  The transcription below is the earlier shape (`marshaled[p] = json(v)`, entries written in key order): same
+   output as a function of the map - the kept entries sorted by name - with `keep` standing for filter AND marshalability.
+   NOT modelled: the extra `__default__` member of an object with a default and marshalDefault (a constant name appended
+   before the sort; the KMarshal cases never build such an object). *)
 Definition xobject_marshal {V J : Type} (keep : str -> V -> bool) (tojson : V -> J) (props : list (str * V)) : list (str * J) :=
   sorted_entries (fold_left (fun acc kv => if keep (fst kv) (snd kv) then upsert str_eqb (fst kv) (tojson (snd kv)) acc else acc) props []).
 
@@ -593,3 +619,30 @@ Definition dtone_pick {A P : Type} (matching : str -> A -> option P) (amounts : 
 (* dtone before the fix: the last matching currency in visiting order *)
 Definition dtone_pick_unsorted {A P : Type} (matching : str -> A -> option P) (amounts : list (str * A)) : option (str * P) :=
   fold_left (dtone_step matching) amounts None.
+
+(* ---- the known dependency findings as models (gocommon; goflow cannot repair them) -------------------------------- *)
+
+(* gocommon urns/parser.go:105 `unescape`: `for ch, esc := range escapes { s = strings.ReplaceAll(s, esc, string(ch)) }` with
+   escapes = {'#': "%23", '%': "%25", '?': "%3F"}: one replacement pass per map entry, in visiting order.  An escape is
+   three code points (a b c), its replacement one (r). *)
+Fixpoint replace3 (a b c r : N) (s : str) : str :=
+  match s with
+  | [] => []
+  | x :: t =>
+      match t with
+      | y :: z :: u => if (N.eqb x a && N.eqb y b && N.eqb z c)%bool then r :: replace3 a b c r u else x :: replace3 a b c r t
+      | _ => x :: replace3 a b c r t
+      end
+  end.
+
+Definition urn_escape := (N * (N * N * N))%type.      (* character, the three code points of its escape *)
+
+Definition urns_unescape (visited : list urn_escape) (s : str) : str :=
+  fold_left (fun acc e => let '(ch, (a, b, c)) := e in replace3 a b c ch acc) visited s.
+
+(* '#' = 35 "%23" = 37 50 51;  '%' = 37 "%25" = 37 50 53;  '?' = 63 "%3F" = 37 51 70 *)
+Definition urn_escapes : list urn_escape := [(35, (37, 50, 51)); (37, (37, 50, 53)); (63, (37, 51, 70))]%N.
+
+(* the classes the tables record as known findings *)
+Definition known_classes (xs : list exception_entry) : list string :=
+  flat_map (fun e => match x_reason e with RKnownFinding c => [c] | _ => [] end) xs.
